@@ -739,7 +739,6 @@ THOROUGH = [
     ("S3", "core6", 2, ("used",), ("ctx",)),
     ("S3", "core4", 2, ("empty",), ("ctx",)),
     ("S3", "core4", 2, ("empty", "used"), ("aio",)),
-    ("S3", "core4", 2, ("used",), ("thr",)),
     ("S3", "writes", 1, ("empty", "used"), ("ctx", "thr", "aio")),
     # round 2
     ("S2", "falsy", 2, ("empty", "used", "falsy"), ("ctx", "aio")),
